@@ -92,14 +92,21 @@ def redraw_numeric(rng: random.Random, g: dict) -> dict:
 
 def make_draw(rng: random.Random, groups: list[dict], dtype="float64", pdtype="float64") -> dict:
     d = {"dtype": dtype, "pdtype": pdtype, "seed": rng.randrange(1 << 30), "groups": groups}
+    draw_grad_mode(rng, d)
+    if dtype == "float64" and pdtype == "float64":
+        draw_scales(rng, d)
+    return d
+
+
+def draw_grad_mode(rng: random.Random, d: dict):
+    """Structure of the gradients (an input, not part of the configuration): dense, one-hot in the first steps, striped."""
+    d.pop("grad_mode", None)
+    d.pop("sparse_steps", None)
     r = rng.random()
     if r < 0.15:
         d["grad_mode"], d["sparse_steps"] = "sparse_first", rng.choice([1, 2, 3])
     elif r < 0.3:
         d["grad_mode"], d["sparse_steps"] = "striped", rng.choice([2, 4, 100])
-    if dtype == "float64" and pdtype == "float64":
-        draw_scales(rng, d)
-    return d
 
 
 SCALE_PATTERNS = [[1e-5], [1e-5], [1e3], [1.0, 1.0, 1e-10], [1.0, 1e-10, 1.0, 1e-10], [1.0, 1.0, 1.0, 1e-10, 1e-12], [1.0, 1e-10], [1e-3, 1.0],
